@@ -200,8 +200,55 @@ def check(ctx) -> None:
     # C01-R2)
     from . import c01
 
+    rule_g16(ctx)
     c01.rule_r4(ctx, "C04-G14")
     c01.rule_r2(ctx, pl, "C04-G15")
+
+
+def rule_g16(ctx, rule_id: str = "C04-G16") -> None:
+    """The Balancer's column settings are the caller's: `Balancer(id_col="rxn_id")` is legal.  A stage object whose
+    constructor has a parameter of the same name (`id_col`, `reaction_col`) reads rows by that column; built without it,
+    the stage falls back to its own default name and raises KeyError (or reads another column) as soon as it touches the
+    column - inside the pipeline, where the Balancer's handler drops the whole batch."""
+    ctx.rule(rule_id, "every stage constructor parameter named like a column setting of the Balancer is bound where the Balancer builds the stage", 5)
+    prog = ctx.prog
+    cls = prog.cls("synrbl.balancing.Balancer")
+    init = prog.lookup_method(cls, "__init__")
+    bparams = {p for p in init.params[1:] + init.kwonly if p.endswith("_col")}
+    ctx.require(bparams, "the Balancer no longer takes column settings")
+    from ..util import calls as _calls
+
+    n = 0
+    for c in _calls(init):
+        sub = ctx.ev._ctor_of(c, init)
+        if sub is None:
+            continue
+        scls = sub[0]
+        sinit = prog.lookup_method(scls, "__init__")
+        if sinit is None:
+            continue
+        sp = sinit.params[1:]
+        bound = {sp[i] for i, _a in enumerate(c.args) if i < len(sp)} | {k.arg for k in c.keywords if k.arg}
+        star = any(k.arg is None for k in c.keywords)
+        for p_ in sp + sinit.kwonly:
+            if p_ not in bparams:
+                continue
+            n += 1
+            ok = p_ in bound or star
+            if not ok:
+                # only a column the stage actually reads rows by matters
+                from ..util import param_attrs
+
+                attrs = param_attrs(scls, p_)
+                used = any(
+                    isinstance(x, (ast.Subscript, ast.Call)) and any((isinstance(y, ast.Attribute) and y.attr in attrs) or (isinstance(y, ast.Name) and y.id == p_) for y in ast.walk(x.slice if isinstance(x, ast.Subscript) else ast.Tuple(elts=list(x.args) + [k.value for k in x.keywords], ctx=ast.Load())))
+                    for m in scls.methods.values() if m.name != "__init__" for x in own_nodes(m.node)
+                )
+                ok = not used
+            ctx.instance(rule_id, "%s(%s=..) is bound in Balancer.__init__ (or never read): %s" % (scls.name, p_, ok), init.loc(c), ok=ok)
+            if not ok:
+                ctx.finding(rule_id, "Balancer.__init__:stage-column-unbound:%s.%s" % (scls.name, p_), init.loc(c), "%s takes %s but the Balancer builds it without: with Balancer(%s=<other name>) the stage looks for its default column, the first access raises inside the pipeline and every row of the batch is lost" % (scls.name, p_, p_))
+    ctx.require(n >= 5, "fewer than 5 stage column parameters found (%d)" % n)
 
 
 def rule_g11(ctx, rule_id: str = "C04-G11") -> None:
